@@ -70,7 +70,7 @@ func init() {
 		for i := range types {
 			vals[i] = int64(i + 1)
 		}
-		fmt.Fprintf(b, "/-- values of the record types %v (iota + 1) -/\ndef fcgiRecordTypes : List Nat := %s\n", types, leanNatList(vals))
+		fmt.Fprintf(b, "/-- values of the record types %v (iota + 1) -/\ndef fcgiRecordTypes : List Nat := %s\n", types, leanInt64List(vals))
 		roles, err := block("Responder")
 		if err != nil {
 			return err
